@@ -55,6 +55,16 @@ CLAIMED = {
         text="Exploration: per pull of every generated history the set of leaves at the start of the call is rebuilt, each recorded expansion is replayed on it and checked (leaf, evaluated, no unevaluated leaf above, best of its depth / best overall with the reference b or reward+delta, sweep monotonicity), and the cell handed out is checked (evaluation caps, depth cap, first-unevaluated-in-top-down-order or max-b).",
         note="Depth caps hold the budget and T <= n (so the depth-cap clause cannot bind: SOO/StoSOO are breadth-first in practice, DESIGN 2.3); DOO's default delta re-derived from the cells of each depth on the tree the decision was taken on; tolerance 1e-12 relative.",
         ref="4/C08"),
+    "C09": dict(
+        technique="exhaustive enumeration of the reward-independent schedule with stub learners over ranges of n x rho_max, plus property-based testing (Hypothesis) of GPO/PCT/VPCT over recording subclasses of the real base learners; reference schedule N, L as oracle",
+        text="Exploration, with one finite sub-space enumerated completely: for every n in 100..1200 (thorough ..5000) and every rho_max of a grid the whole run is driven with an O(1) stub learner and compared with the reference schedule (learner count/order/parameters, exactly L alternating pull/receive pairs each, L validation rounds on the last proposal, score == mean of exactly those rewards, final point == best validated point). Generated runs with real learners, partitions and reward laws check the same on the actual classes.",
+        note="floor(n/(2N)) >= 1 (else: open finding D8). Cases with a ceil/floor argument within 1e-9 of an integer are skipped and counted. exhaustive refers to the stub sub-check only.",
+        ref="4/C09"),
+    "C10": dict(
+        technique="property-based testing (Hypothesis) with recording learner subclasses and a per-learner reward ledger, per-round routing/score oracle; enumerated stub-learner schedule over a rho_max grid",
+        text="Exploration: every round of every generated POO run is attributed to the learner whose pull ran; routing (exactly one learner, reward to the same learner once), learner list monotonicity, construction parameters on the published rho grid, and the score/count invariants V_reward == mean(ledger), Times == len(ledger) are checked after every round; get_last_point must ask one best-scored learner. A grid of rho_max values is enumerated with stub learners for thousands of rounds to reach the later doubling phases.",
+        note="rho_max >= 0.84 (POO starts); tolerance 1e-9 relative to the largest |reward|.",
+        ref="4/C10"),
 }
 
 NOT_YET = "check not built yet in this round (planned in DESIGN.md section 4); property-based testing applies"
